@@ -220,11 +220,11 @@ def run(ctx: Ctx) -> None:
     from ..siblingrule import sibling_rule
     from .c03 import alloc_rule
     lane_rule(ctx, "R12.lane")
-    sibling_rule(ctx, "R12.sib", groups=[("WriteBackMemorySystem", "write"), ("WriteThroughMemorySystem", "write")])
+    sibling_rule(ctx, "R12.sib", groups=[("WriteBackMemorySystem", "write"), ("WriteThroughMemorySystem", "write")], mode="data")
     alloc_rule(ctx, "R12.alloc")
 
     r = ctx.rule("R12.view", "memory table exposes the lower memory")
     f = m.method("BaseCacheMemorySystem", "wordwise_repr", own=True)
     rets = [n for n in walk_no_nested(f.node) if isinstance(n, ast.Return)]
-    ok = len(rets) == 1 and rets[0].value is not None and ast.unparse(rets[0].value) == f"{f.params[0]}.memory.wordwise_repr()"
-    r.check(ok, "BaseCacheMemorySystem.wordwise_repr", f.loc(), "wordwise_repr no longer returns self.memory.wordwise_repr()")
+    ok = any(isinstance(c.func, ast.Attribute) and ast.unparse(c.func) == f"{f.params[0]}.memory.wordwise_repr" for c in calls_in(f.node))
+    r.check(ok, "BaseCacheMemorySystem.wordwise_repr", f.loc(), "the memory table is no longer derived from the lower memory's wordwise_repr()")
